@@ -94,13 +94,10 @@ func (t *ParsedTable) ToMarkdown() string {
 	}
 	result += "\n"
 
-	// Data rows (skip first if it was header)
-	startRow := 1
-	if !t.HasHeader && len(t.Rows) > 1 {
-		startRow = 0
-	}
-
-	for i := startRow; i < len(t.Rows); i++ {
+	// Data rows. The first row has already been written above the separator
+	// (Markdown tables need a header line, so it serves as one whether or not
+	// the HTML marked it as a header, as in model.Table.ToMarkdown).
+	for i := 1; i < len(t.Rows); i++ {
 		result += "|"
 		for _, cell := range t.Rows[i] {
 			result += " " + escapeMarkdown(cell.Text) + " |"
